@@ -15,7 +15,7 @@ import itertools, os, re, shutil, subprocess
 from .. import harness as H, build
 from ..check import Check, pmap
 
-REGIONS = ["top", "s1block", "s1indent", "s2block", "s2indent", "action1", "actionbrace", "actionblock", "actionor", "eofaction", "sect3"]
+REGIONS = ["top", "s1block", "s1indent", "s2block", "s2flush", "s2mid", "s2indent", "action1", "actionbrace", "actionblock", "actionor", "eofaction", "sect3"]
 FILE_SCOPE = {"top", "s1block", "s1indent", "sect3"}
 
 PAYLOADS = ["[[", "]]", "[[x]]", "]]x[[", "[[[[", "]]]]", "[", "]", "][", "[[]]", "m4_define([[x]],[[y]])", "m4_dnl", "dnl", "m4_include(/dev/null)",
@@ -80,7 +80,7 @@ class Spec:
 
 
 KEYS = ["top", "s1block", "s1indent", "s2block", "s2indent", "action1", "actionbrace", "actionbrace3", "actionblock", "actionor", "eofaction", "sect3",
-        "scoped", "afterx", "aftercomment", "trail", "contaction", "s1block2", "sect3b"]
+        "scoped", "afterx", "aftercomment", "trail", "contaction", "s1block2", "sect3b", "s2flush", "s2mid", "strcont", "longline"]
 KEYNUM = {k: i for i, k in enumerate(KEYS)}
 
 API_MAIN = {
@@ -141,10 +141,13 @@ def build_spec(api, feats, payload_at=None):
         S.probe_file("s1block2")
         S.add("%}")
     S.add("%%")
-    if "s2block" in feats or pr == "s2block":
+    if "s2block" in feats or pr in ("s2block", "s2flush"):
         S.add("%{")
         n = S.add("    " + S.stmt("s2block", *pay("s2block")))
         S.probes["s2block"] = n
+        if "s2flush" in feats or pr == "s2flush":       # a line of the block that starts in column one
+            n = S.add(S.stmt("s2flush", *pay("s2flush")))
+            S.probes["s2flush"] = n
         S.add("%}")
     if "indent" in feats or pr == "s2indent":
         n = S.add("    " + S.stmt("s2indent", *pay("s2indent")))
@@ -154,6 +157,17 @@ def build_spec(api, feats, payload_at=None):
     # single-line action
     n = S.add("a    " + S.stmt("action1", *pay("action1")))
     S.probes["action1"] = n
+    if "s2mid" in feats or pr == "s2mid":
+        # a %{ %} block between two rules: its code lands inside yylex() after the preceding action, where it cannot run; the
+        # probe is a declaration, checked through the verbatim / compile oracles and the line directives only
+        S.add("%{")
+        t = "enum { vf_mid_line = __LINE__ }; "
+        if pr == "s2mid":
+            t += S._carry(pay("s2mid")[0], pay("s2mid")[1], "s2mid")
+            if pay("s2mid")[1] in ("string", "charlit"):
+                S.texts.append(t)              # not reachable at run time: the whole line is looked up verbatim in the generated file
+        S.add("    " + t)
+        S.add("%}")
     if "blank" in feats:
         S.add("")
         S.add("")
@@ -200,6 +214,17 @@ def build_spec(api, feats, payload_at=None):
         n = S.add("o/p    " + S.stmt("trail"))
         S.probes["trail"] = n
         S.add("p$     ;")
+    if "strcont" in feats:
+        S.add("s    { const char *vf_long = \"first half \\")
+        S.add("second half\";")
+        n = S.add("         " + S.stmt("strcont"))
+        S.probes["strcont"] = n
+        S.add("         (void)vf_long; }")
+    if "longline" in feats:
+        S.add("t    { static const char vf_big[] = \"" + "x" * 5000 + "\";")
+        n = S.add("         " + S.stmt("longline"))
+        S.probes["longline"] = n
+        S.add("         (void)vf_big; }")
     if "contaction" in feats:
         S.add("q    {")
         S.add("        int vf_tmp = 0;")
@@ -233,7 +258,7 @@ def build_spec(api, feats, payload_at=None):
         S.add("        ((a) + \\")
         S.add("         (b))")
         S.probe_file("sect3b")
-    S.add("static const char vf_input[] = \"a b c d e f k n op p\\nq lm hij rg \";")
+    S.add("static const char vf_input[] = \"a b c d e f k n op p\\nq lm hij s t rg \";")
     S.add("static void vf_hex(const char *s) { if (!s) { printf(\"-\"); return; } printf(\"x\"); while (*s) printf(\"%02x\", (unsigned char)*s++); }")
     S.add("int main(void) {")
     S.add("    int k;")
@@ -373,7 +398,7 @@ def run_one(job):
 
 
 LAYOUT_FEATS = ["blank", "top", "defs", "indent", "s2block", "multiline", "pctaction", "oraction", "scope", "xpattern", "pcomment", "trail", "contaction", "eof",
-                "two_blocks", "sect3b", "twofiles"]
+                "two_blocks", "sect3b", "twofiles", "s2flush", "s2mid", "strcont", "longline"]
 BASE_FEATS = ["top", "defs", "eof"]
 
 
@@ -397,7 +422,7 @@ def run(tier):
                         pass
                     if carrier == "lcomment" and pl.endswith("\\"):
                         continue        # a trailing backslash would splice the next line into the comment
-                    if region in ("actionblock", "s2block") and "%}" in pl:
+                    if region in ("actionblock", "s2block", "s2flush", "s2mid") and "%}" in pl:
                         continue        # the manual: a %{ action or block extends to the next %} - the text cannot contain one
                     jobs.append(dict(api=api, feats=BASE_FEATS, payload_at=(region, pl, carrier)))
     npay = len(jobs)
